@@ -53,8 +53,24 @@ func (s *kvStore) apply(ops []Operation) {
 	s.mu.Lock()
 	defer s.mu.Unlock()
 	for _, op := range ops {
+		// The map holds one operation per key: the one this node still gossips. Newly
+		// persisted operations arrive here in order, but the mark "recovered" for an
+		// operation may arrive after a newer operation on the same key has been stored.
+		// It must not replace that one, or the newer operation is never gossiped.
+		if cur, ok := s.data[string(op.Key)]; ok && newerOperation(cur, op) {
+			continue
+		}
 		s.data[string(op.Key)] = op
 	}
+}
+
+// newerOperation reports whether a is newer than b by the rule every node resolves
+// conflicting operations on a key with: higher version, then higher leaseholder.
+func newerOperation(a, b Operation) bool {
+	if a.Version != b.Version {
+		return a.Version.NewerThan(b.Version)
+	}
+	return a.Leaseholder > b.Leaseholder
 }
 
 type storeEmitter struct {
